@@ -72,6 +72,90 @@ fn split_cells(r: &mut Rng, target: u64, ncells: usize) -> Option<Vec<u64>> {
     None
 }
 
+/// A text row in which a typed (non-blob) cell straddles the 2^24-1 packet boundary: a blob
+/// sized so that only `j` bytes of the next cell's text fit into the first packet.
+pub fn gen_straddle_plan(r: &mut Rng, ints_only: bool) -> Plan {
+    let cell = loop {
+        let c = if ints_only {
+            match r.below(10) {
+                0 => Cell::U8(int_edge(r, 100, 255) as u8),
+                1 => Cell::I8(int_edge(r, -128, -100) as i8),
+                2 => Cell::U16(int_edge(r, 1000, 65_535) as u16),
+                3 => Cell::I16(int_edge(r, -32_768, -1000) as i16),
+                4 => Cell::U32(int_edge(r, 1 << 20, u32::MAX as i128) as u32),
+                5 => Cell::I32(int_edge(r, i32::MIN as i128, -(1 << 20)) as i32),
+                6 => Cell::U64(int_edge(r, 1 << 40, u64::MAX as i128) as u64),
+                7 => Cell::I64(int_edge(r, i64::MIN as i128, -(1 << 40)) as i64),
+                8 => Cell::Usize(int_edge(r, 1 << 40, u64::MAX as i128) as u64),
+                _ => Cell::Myc(MycV::Int(int_edge(r, i64::MIN as i128, -(1 << 40)) as i64)),
+            }
+        } else {
+            gen_cell_text(r, false)
+        };
+        if !matches!(c, Cell::Null(_) | Cell::Myc(MycV::Null) | Cell::Ref(_) | Cell::Bytes(_) | Cell::VecBytes(_)) {
+            break c;
+        }
+    };
+    let k = if r.chance(4, 5) { 1u64 } else { 2 };
+    let j = match r.below(3) {
+        0 => r.below(3),
+        1 => r.below(9),
+        _ => r.below(24),
+    };
+    // encoded blob = 4-byte length prefix + X bytes (X in 65536..2^24-1), or 9 + X beyond
+    let before = k * U24 - 1 - j; // bytes of the row that precede the typed cell's text
+    let x = if before - 4 <= 0xFF_FFFF { before - 4 } else { before - 9 };
+    let cols: Vec<ColSpec> = (0..3)
+        .map(|_| ColSpec {
+            table: Blob::lit(b"t"),
+            name: Blob::lit(b"c"),
+            coltype: 0xfc,
+            flags: 0,
+        })
+        .collect();
+    let big = vec![
+        Cell::Bytes(Blob::Gen {
+            len: x as u32,
+            salt: r.next() as u32,
+            ascii: false,
+        }),
+        cell,
+        Cell::Str(Blob::lit(b"after")),
+    ];
+    let small = vec![Cell::Null(0), Cell::I32(7), Cell::Str(Blob::lit(b"next row"))];
+    let mut p = Plan::basic(vec![
+        Cmd {
+            seq: 0,
+            kind: CmdKind::Query(Blob::lit(b"straddle")),
+            act: Act::Program(Program {
+                units: vec![Unit::Rows(RowsUnit {
+                    cols,
+                    rows: vec![big, small],
+                    write_row: r.coin(),
+                    last_row_ended: r.coin(),
+                    close: Close::Finish,
+                    contra: None,
+                    recover: None,
+                })],
+                end: End::Implicit,
+                ret_err: None,
+                probe_cells: false,
+            }),
+        },
+        Cmd {
+            seq: 0,
+            kind: CmdKind::Ping,
+            act: Act::None,
+        },
+    ]);
+    p.writes.accept = match r.below(3) {
+        0 => vec![0],
+        1 => vec![65_536],
+        _ => vec![7, 0],
+    };
+    p
+}
+
 pub fn gen_c04_plan(r: &mut Rng, tier: Tier, job: u64) -> Plan {
     gen_c04(r, tier, job)
 }
@@ -84,7 +168,10 @@ fn gen_c04(r: &mut Rng, tier: Tier, job: u64) -> Plan {
     };
     let d: i64 = if r.chance(1, 4) { 0 } else { r.irange(-6, 6) };
     let target = (k * U24) as i64 + d; // logical message length
-    let variant = if tier == Tier::Thorough { r.below(10) } else { job % 10 };
+    let variant = if tier == Tier::Thorough { r.below(12) } else { job % 12 };
+    if variant >= 10 {
+        return gen_straddle_plan(r, false);
+    }
     let mut cmds = Vec::new();
     let small_row_text = vec![Cell::Str(Blob::lit(b"after"))];
     match variant {
@@ -620,6 +707,13 @@ impl Check for C15 {
             }
             return;
         }
+        if job % 50_000 == 17 {
+            // text protocol: the digits of an integer straddle the 2^24-1 packet boundary
+            let plan = gen_straddle_plan(rng, true);
+            ctx.stats.bump("probe.int_text_straddles_packet_boundary", 1);
+            ctx.eval(&plan);
+            return;
+        }
         // seeded: several must-accept cells, then possibly one may-refuse cell
         let mut cells = Vec::new();
         let n_must = rng.usize_below(12);
@@ -659,7 +753,7 @@ impl Check for C15 {
         ctx.eval(&plan);
     }
     fn owns(&self, rule: &str) -> bool {
-        ["int-refused", "int-altered", "int-unaccounted", "resp-malformed"].contains(&rule)
+        ["int-refused", "int-altered", "int-unaccounted", "resp-malformed", "text-value"].contains(&rule)
     }
     fn extra_judge(&self, plan: &Plan, out: &Outcome, vs: &mut Vec<Violation>) {
         // locate the probe program
@@ -881,6 +975,7 @@ impl Check for C19 {
         let (out, _) = ctx.eval_out(&base);
         let n_ops = out.w.op;
         let n_bytes = out.w.cbytes.len() as u64;
+        let tls_len = out.w.tls.as_ref().map(|t| t.out.len() as u64).unwrap_or(0);
         // op kinds of the fault-free run
         let mut kinds = vec![0u8; n_ops as usize];
         for e in &out.w.events {
@@ -922,7 +1017,17 @@ impl Check for C19 {
             }
         }
         if base.cfg.tls.is_some() {
+            // end of stream after every byte of the outer (wire) stream
             ctx.stats.bump("enum.tls_conversations", 1);
+            ctx.stats.bump("enum.fault_points_tls_bytes", tls_len);
+            for k in 0..tls_len {
+                p.faults = vec![Fault {
+                    at: FaultAt::ClientByte(k),
+                    kind: FaultKind::Eof,
+                    persistent: true,
+                }];
+                ctx.eval(&p);
+            }
             return;
         }
         for k in 0..=n_bytes {
@@ -995,6 +1100,21 @@ impl Check for C19 {
                     FaultAt::ClientByte(k) => k as usize,
                     _ => return,
                 };
+                if let Some(t) = &w.tls {
+                    // TLS: the stream was cut before the client had sent everything (and its
+                    // close_notify): a truncation, never a clean close
+                    if !t.closed && matches!(out.end, RunEnd::Ok) {
+                        vs.push(v(
+                            "fault-eof-verdict",
+                            "ok after a truncated TLS stream",
+                            format!(
+                                "TLS stream cut after {} wire bytes (client had not finished, no close_notify) but run_on returned Ok",
+                                k
+                            ),
+                        ));
+                    }
+                    return;
+                }
                 let boundary = w.unit_ends.iter().position(|e| *e == k);
                 // what the model says about the commands before the boundary
                 let expect_ok = match boundary {
@@ -1059,7 +1179,7 @@ impl Check for C19 {
             "fault points are enumerated completely per conversation; conversations are sampled",
             "a fault is injected on a transport call the server actually makes (the simulator only acts when called)",
             "Interrupted and a zero-length write (Ok(0)) are not error reports: they may be retried (write_all retries Interrupted, rustls retries both) or reported; both outcomes are accepted",
-            "about 1 in 12 conversations runs over TLS: operation-index faults then land underneath rustls; end-of-stream offsets are enumerated for plaintext conversations only",
+            "about 1 in 12 conversations runs over TLS: operation-index faults then land underneath rustls, and end of stream is enumerated over every byte of the wire stream (a cut before the client's close_notify must never yield Ok; at or after it either outcome is accepted)",
         ]
     }
     fn probes(&self) -> &'static [&'static str] {
